@@ -308,7 +308,7 @@ impl Check for C20 {
         "exploration"
     }
     fn rule(&self) -> String {
-        "case = sync configuration (interval 0/1/5/20/50 ms, idle interval >= it up to 100 ms, max batch 1/50/1000, min sync bytes 1/4096/huge, 1-2 buckets, segment 128 KiB) + 1-16 client tasks each issuing 2-10 generated appends: small, large (forcing rollovers), multi-event, multi-event failing behind the first event (timestamp >= 2^63), wrong expected version. Oracle: every append future resolves (Ok or Err) within B = 20*max(interval, idle) + 3 s; a miss is confirmed by waiting a further B with no new traffic, and only a future that is still pending then is a violation (a lost wake-up is permanent, a load spike is not). Non-trivial: at least two clients in flight across a rollover with a non-zero sync interval (waiters exist while the segment is switched).".into()
+        "case = sync configuration (interval 0/1/5/20/50 ms, idle interval >= it up to 100 ms, max batch 1/50/1000, min sync bytes 1/4096/huge, 1-2 buckets, segment 128 KiB) + 1-16 client tasks each issuing 2-10 generated appends: small, large (forcing rollovers), multi-event, multi-event failing behind the first event (timestamp >= 2^63), wrong expected version. Oracle: every append future resolves (Ok or Err) within B = 20*max(interval, idle) + 10 s; a miss is confirmed by waiting a further B with no new traffic, and only a future that is still pending then is a violation (a lost wake-up is permanent, a load spike is not). Non-trivial: at least two clients in flight across a rollover with a non-zero sync interval (waiters exist while the segment is switched).".into()
     }
     fn assumptions(&self) -> Vec<String> {
         vec!["healthy disk (tmpfs); the bound is relative to the configured intervals, absurd intervals are outside the domain".into(), "a worker that exceeds its watchdog is reported as inconclusive, not as a violation".into()]
@@ -348,7 +348,7 @@ impl Check for C20 {
             per_client[i % n_clients].push(A { kind: [0u8, 0, 0, 1, 1, 2, 3, 4][t.usize_below(8)], stream: t.below(4) as u8 });
             i += 1;
         }
-        let bound = Duration::from_millis(20 * interval.max(idle) + 3000);
+        let bound = Duration::from_millis(20 * interval.max(idle) + 10_000);
         let scratch = Scratch::new("c20");
         let db = match cfg.open(scratch.path()) {
             Ok(db) => db,
